@@ -34,17 +34,22 @@ type chain struct {
 	stage *ssa.Call     // call of the selected middleware
 	cmp   *ssa.BinOp    // idx < len(slice)
 	core  *ssa.Call     // call of the innermost handler
+	off   int           // index of the context parameter of k (1 when k is a method: the continuation is a bound method value)
+	pos   int           // method form: index of the receiver's field holding the chain position (-1 otherwise)
 }
 
 // findChains discovers the continuation closures of the repository.
 func findChains(p *Program) []*chain {
 	var out []*chain
 	for _, fn := range p.OwnFuncs() {
-		if fn.Parent() == nil {
+		if fn.Parent() == nil && fn.Signature.Recv() == nil {
 			continue
 		}
 		id := idOf(fn)
 		if id.pkg != cliPath && id.pkg != srvPath {
+			continue
+		}
+		if fn.Synthetic != "" {
 			continue
 		}
 		var c *chain
@@ -69,7 +74,13 @@ func findChains(p *Program) []*chain {
 				}
 				for _, r2 := range *el.Referrers() {
 					if call, ok := r2.(*ssa.Call); ok && call.Call.Value == ssa.Value(el) {
-						c = &chain{k: fn, field: fld, idx: ia.Index, stage: call}
+						c = &chain{k: fn, field: fld, idx: ia.Index, stage: call, pos: -1}
+						if fn.Parent() == nil && fn.Signature.Recv() != nil {
+							c.off = 1
+							if _, fi, ok := recvFieldRead(fn, ia.Index); ok {
+								c.pos = fi
+							}
+						}
 					}
 				}
 			}
@@ -94,8 +105,8 @@ func findChains(p *Program) []*chain {
 					return
 				}
 				sc := x.Call.StaticCallee()
-				if sc != nil && sc.Signature.Recv() != nil && (idOf(sc).pkg == cliPath || idOf(sc).pkg == srvPath) && len(x.Call.Args) >= 3 && len(fn.Params) >= 2 &&
-					(x.Call.Args[1] == ssa.Value(fn.Params[0]) || x.Call.Args[2] == ssa.Value(fn.Params[1]) || len(x.Call.Args) == 3) {
+				if sc != nil && sc != fn && sc.Signature.Recv() != nil && (idOf(sc).pkg == cliPath || idOf(sc).pkg == srvPath) && len(x.Call.Args) >= 3 && len(fn.Params) >= 2+c.off &&
+					(x.Call.Args[1] == ssa.Value(fn.Params[c.off]) || x.Call.Args[2] == ssa.Value(fn.Params[c.off+1]) || len(x.Call.Args) == 3) {
 					c.core = x
 				}
 			}
@@ -103,6 +114,76 @@ func findChains(p *Program) []*chain {
 		out = append(out, c)
 	}
 	return out
+}
+
+// recvFieldRead: v reads a field of fn's receiver (value receiver: Field of the parameter or a load through its
+// spill cell; pointer receiver: load of FieldAddr of the parameter). Returns the receiver parameter and the field index.
+func recvFieldRead(fn *ssa.Function, v ssa.Value) (*ssa.Parameter, int, bool) {
+	if len(fn.Params) == 0 || fn.Signature.Recv() == nil {
+		return nil, 0, false
+	}
+	recv := fn.Params[0]
+	switch x := v.(type) {
+	case *ssa.Field:
+		if unspill(x.X) == ssa.Value(recv) {
+			return recv, x.Field, true
+		}
+	case *ssa.UnOp:
+		if x.Op != token.MUL {
+			return nil, 0, false
+		}
+		fa, ok := x.X.(*ssa.FieldAddr)
+		if !ok {
+			return nil, 0, false
+		}
+		if fa.X == ssa.Value(recv) {
+			return recv, fa.Field, true
+		}
+		if al, ok := fa.X.(*ssa.Alloc); ok {
+			for _, ref := range *al.Referrers() {
+				if st, ok := ref.(*ssa.Store); ok && st.Addr == ssa.Value(al) && st.Val == ssa.Value(recv) {
+					return recv, fa.Field, true
+				}
+			}
+		}
+	}
+	return nil, 0, false
+}
+
+// structFieldValue: the value field fi of the struct value v was built with (v is a load of a local composite
+// literal); zero=true when the literal leaves the field at its zero value.
+func structFieldValue(v ssa.Value, fi int) (val ssa.Value, zero bool, ok bool) {
+	al, isAl := v.(*ssa.Alloc) // pointer receiver: the address of the literal itself
+	if !isAl {
+		ld, isLd := v.(*ssa.UnOp)
+		if !isLd || ld.Op != token.MUL {
+			return nil, false, false
+		}
+		al, isAl = ld.X.(*ssa.Alloc)
+		if !isAl {
+			return nil, false, false
+		}
+	}
+	n := 0
+	for _, ref := range *al.Referrers() {
+		fa, isFA := ref.(*ssa.FieldAddr)
+		if !isFA || fa.Field != fi {
+			continue
+		}
+		for _, r2 := range *fa.Referrers() {
+			if st, isSt := r2.(*ssa.Store); isSt && st.Addr == ssa.Value(fa) {
+				val = st.Val
+				n++
+			}
+		}
+	}
+	switch n {
+	case 0:
+		return nil, true, true
+	case 1:
+		return val, false, true
+	}
+	return nil, false, false
 }
 
 // cursorVar: the variable (FreeVar pointer) the index is loaded from, or nil if the index is a parameter/constant.
@@ -173,6 +254,48 @@ func runC19(r *Run, verifDir string) {
 			} else {
 				r.OK("C19.W1", key, c.k.Pos(), "position %s is captured per continuation and never written after the continuation is created", fv.Name())
 			}
+		} else if c.pos >= 0 {
+			// method form: the continuation is a bound method value, the position a field of its receiver
+			stores := 0
+			var where token.Pos
+			_, isPtr := c.k.Params[0].Type().Underlying().(*types.Pointer)
+			for _, fn := range r.P.OwnFuncs() {
+				if !isPtr && fn != c.k {
+					continue
+				}
+				allInstrs(fn, func(in ssa.Instruction) {
+					st, ok := in.(*ssa.Store)
+					if !ok {
+						return
+					}
+					fa, ok := st.Addr.(*ssa.FieldAddr)
+					if !ok || fa.Field != c.pos || !types.Identical(derefType(fa.X.Type()), derefType(c.k.Params[0].Type())) {
+						return
+					}
+					if _, fresh := fa.X.(*ssa.Alloc); fresh && fn != c.k {
+						return
+					}
+					if al, fresh := fa.X.(*ssa.Alloc); fresh && fn == c.k {
+						// a fresh link built inside the continuation (the one for position+1) is not this continuation's position
+						spill := false
+						for _, ref := range *al.Referrers() {
+							if s2, ok := ref.(*ssa.Store); ok && s2.Addr == ssa.Value(al) && s2.Val == ssa.Value(c.k.Params[0]) {
+								spill = true
+							}
+						}
+						if !spill {
+							return
+						}
+					}
+					stores++
+					where = st.Pos()
+				})
+			}
+			if stores > 0 {
+				r.Bad("C19.W1", key, where, "the continuation %s writes the chain position held in its receiver (%d store(s)): a middleware that calls next twice (retry) resumes after the stages already visited", key, stores)
+			} else {
+				r.OK("C19.W1", key, c.k.Pos(), "position is a field of the continuation's receiver, bound when the method value is taken and never written afterwards")
+			}
 		} else if _, isParam := c.idx.(*ssa.Parameter); isParam {
 			r.OK("C19.W1", key, c.k.Pos(), "position is a parameter of the continuation")
 		} else if _, isConst := c.idx.(*ssa.Const); isConst {
@@ -182,10 +305,10 @@ func runC19(r *Run, verifDir string) {
 		}
 		// ---- W2
 		ownParams := func(call *ssa.Call, first int) bool {
-			if call == nil || len(call.Call.Args) < first+2 || len(c.k.Params) < 2 {
+			if call == nil || len(call.Call.Args) < first+2 || len(c.k.Params) < 2+c.off {
 				return false
 			}
-			return call.Call.Args[first] == ssa.Value(c.k.Params[0]) && call.Call.Args[first+1] == ssa.Value(c.k.Params[1])
+			return call.Call.Args[first] == ssa.Value(c.k.Params[c.off]) && call.Call.Args[first+1] == ssa.Value(c.k.Params[c.off+1])
 		}
 		returnsUnchanged := func(call *ssa.Call) bool {
 			ok := false
@@ -255,6 +378,23 @@ func runC19(r *Run, verifDir string) {
 			nextArg = ct.X
 		}
 		switch na := nextArg.(type) {
+		case *ssa.MakeClosure:
+			// method form: a bound method value of this very method on a link whose position is position+1
+			w, _ := na.Fn.(*ssa.Function)
+			switch {
+			case c.pos < 0 || w == nil || w.Object() == nil || w.Object() != c.k.Object() || len(na.Bindings) != 1:
+				w3 = "the continuation handed to the stage is not recognised"
+			default:
+				val, zero, ok := structFieldValue(na.Bindings[0], c.pos)
+				sum, isSum := val.(*ssa.BinOp)
+				one := int64(0)
+				if isSum {
+					one, _ = constIntVal(sum.Y)
+				}
+				if !ok || zero || !isSum || sum.Op != token.ADD || one != 1 || (sum.X != c.idx && accessPath(sum.X) != accessPath(c.idx)) {
+					w3 = "the stage's continuation is not the one for position+1"
+				}
+			}
 		case *ssa.Call:
 			// builder(idx+1): the builder is the function variable holding the enclosing closure, or (method form)
 			// the function that creates this continuation, called with the same receiver
@@ -330,7 +470,15 @@ func runC19(r *Run, verifDir string) {
 			paths, okP := enumeratePaths(c.k, 256)
 			badPos, badN := token.NoPos, 0
 			for _, path := range paths {
-				n := 0
+				n, inf := 0, false
+				for i := range path {
+					if _, _, _, x := edgeOnPath(path, i); x {
+						inf = true
+					}
+				}
+				if inf {
+					continue
+				}
 				for _, b := range path {
 					for _, in := range b.Instrs {
 						if in == ssa.Instruction(c.stage) || in == ssa.Instruction(c.core) {
@@ -388,6 +536,33 @@ func c19Start(r *Run, c *chain) {
 							}
 						}
 					}
+				}
+			})
+		}
+	}
+	if c.pos >= 0 {
+		// method form: every call of the continuation method from outside itself starts the chain
+		for _, fn := range r.P.OwnFuncs() {
+			if fn == c.k {
+				continue
+			}
+			allInstrs(fn, func(in ssa.Instruction) {
+				x, isCall := in.(*ssa.Call)
+				if !isCall || x.Call.StaticCallee() != c.k || len(x.Call.Args) == 0 {
+					return
+				}
+				val, zero, okV := structFieldValue(x.Call.Args[0], c.pos)
+				k, isK := int64(0), zero
+				if okV && !zero {
+					k, isK = constIntVal(val)
+				}
+				switch {
+				case okV && isK && k == 0:
+					ok = true
+				case okV && isK:
+					why = fmt.Sprintf("the chain is entered at position %d", k)
+				default:
+					why = "the chain is entered at a position that is not the constant 0"
 				}
 			})
 		}
@@ -512,4 +687,11 @@ func c19Registration(r *Run) {
 	if n < 3 {
 		r.Unk("C19.W4", "middleware-slices/stores", token.NoPos, "%d stores to middleware slices found", n)
 	}
+}
+
+func derefType(t types.Type) types.Type {
+	if p, ok := t.Underlying().(*types.Pointer); ok {
+		return p.Elem()
+	}
+	return t
 }
